@@ -4,6 +4,7 @@
 def register(reg):
     register_hasher(reg)
     register_hasher_next(reg)
+    register_hasher_init(reg)
     C = reg.contract
 
     C("torrentfile.hasher.merkle_root",
@@ -35,7 +36,7 @@ def register_hasher(reg):
     C("torrentfile.hasher.Hasher.next_file",
       props=["C01", "C15"],
       params={"self": HASHER},
-      requires=["self.piece_length > 0", "0 <= self.index < len(self.paths)", "file_wf(self.current, self.paths[self.index])",
+      requires=["self.piece_length > 0", "0 <= self.index", "file_open(self.current)",
                 ("env", "path_is_file(self.paths, self.index + 1)")],
       returns="bool",
       modifies=["self.index", "self.current"],
@@ -43,7 +44,7 @@ def register_hasher(reg):
           ("C01", "index_advances", "self.index == old(self.index) + 1"),
           ("C01", "true_iff_there_is_a_next_file", "result == (old(self.index) + 1 < len(self.paths))"),
           ("C01", "next_file_opened_at_start",
-           "implies(result, file_wf(self.current, self.paths[self.index]) and file_tail(self.current) == fs_data(self.paths[self.index]))"),
+           "file_open(self.current) and implies(result, file_tail(self.current) == fs_data(self.paths[self.index]))"),
           ("C01", "no_next_file_leaves_the_handle_alone", "implies(not result, file_same(self.current, old(self.current)))"),
           ("C01", "paths_unchanged", "self.paths == old(self.paths) and self.piece_length == old(self.piece_length) and self.align == old(self.align)"),
       ])
@@ -52,7 +53,7 @@ def register_hasher(reg):
     C("torrentfile.hasher.Hasher._handle_partial",
       props=["C01", "C15"],
       params={"self": HASHER, "arr": "bytearray"},
-      requires=["self.piece_length > 0", "0 <= self.index < len(self.paths)", "file_wf(self.current, self.paths[self.index])",
+      requires=["self.piece_length > 0", "0 <= self.index", "file_open(self.current)",
                 "file_at_eof(self.current)", "0 < len(arr) < self.piece_length"],
       returns="bytes",
       modifies=["self.index", "self.current", "arr"],
@@ -70,14 +71,14 @@ def register_hasher(reg):
            "implies(self.align, result == sha1(old(arr) + zeros(self.piece_length - len(old(arr)))) and self.index == old(self.index))"),
           ("C01", "state_stays_wellformed",
            "self.paths == old(self.paths) and self.piece_length == old(self.piece_length) and self.align == old(self.align) and "
-           "old(self.index) <= self.index and implies(self.index < len(self.paths), file_wf(self.current, self.paths[self.index]))"),
+           "old(self.index) <= self.index and file_open(self.current) and "
+           "implies(self.index >= len(self.paths), file_at_eof(self.current))"),
       ],
       loops={0: {"invariant": [
           ("stream_conserved", f"arr + {REMAINING} == old(arr) + rest(old(self.paths), old(self.index) + 1)"),
           ("arr_bounds", "len(old(arr)) <= len(arr) <= self.piece_length"),
           ("wf", "self.paths == old(self.paths) and self.piece_length == old(self.piece_length) and self.align == old(self.align) "
-                 "and old(self.index) <= self.index < len(self.paths) and "
-                 "file_wf(self.current, self.paths[self.index]) and file_at_eof(self.current)"),
+                 "and old(self.index) <= self.index and file_open(self.current) and file_at_eof(self.current)"),
       ], "modifies": ["self.index", "self.current", "arr"]}},
       notes="requires every listed path to be a regular file while hashing (no concurrent modification, DESIGN 3.3-6)")
 
@@ -87,7 +88,8 @@ def register_hasher_next(reg):
     C("torrentfile.hasher.Hasher.__next__",
       props=["C01", "C15"],
       params={"self": HASHER},
-      requires=["self.piece_length > 0", "0 <= self.index < len(self.paths)", "file_wf(self.current, self.paths[self.index])"],
+      requires=["self.piece_length > 0", "0 <= self.index", "file_open(self.current)",
+                "implies(self.index >= len(self.paths), file_at_eof(self.current))"],
       returns="bytes",
       modifies=["self.index", "self.current"],
       ghost_out={"hashed_sha1": "hashed()"},
@@ -101,7 +103,8 @@ def register_hasher_next(reg):
            "implies(self.align, len(hashed()) == self.piece_length)"),
           ("C01", "state_stays_wellformed",
            "self.paths == old(self.paths) and self.piece_length == old(self.piece_length) and self.align == old(self.align) and "
-           "old(self.index) <= self.index and implies(self.index < len(self.paths), file_wf(self.current, self.paths[self.index]))"),
+           "old(self.index) <= self.index and file_open(self.current) and "
+           "implies(self.index >= len(self.paths), file_at_eof(self.current))"),
       ],
       raises={"StopIteration": {"ensures": [
           ("C01", "stops_only_when_the_stream_is_exhausted", f"len(old({REMAINING})) == 0"),
@@ -110,7 +113,25 @@ def register_hasher_next(reg):
       loops={0: {"invariant": [
           ("stream_unchanged_while_skipping_exhausted_files", f"{REMAINING} == old({REMAINING})"),
           ("wf", "self.paths == old(self.paths) and self.piece_length == old(self.piece_length) and self.align == old(self.align) "
-                 "and old(self.index) <= self.index < len(self.paths) and file_wf(self.current, self.paths[self.index])"),
+                 "and old(self.index) <= self.index and file_open(self.current) and "
+                 "implies(self.index >= len(self.paths), file_at_eof(self.current))"),
       ], "modifies": ["self.index", "self.current"]}},
       notes="the k-th call returns SHA-1 of the next piece_length bytes of the concatenated files (fewer only at the very end) and "
             "raises StopIteration exactly when nothing is left; by induction (L3) the results are v1_pieces(stream)")
+
+
+def register_hasher_init(reg):
+    C = reg.contract
+    C("torrentfile.hasher.Hasher.__init__",
+      props=["C01", "C15"],
+      params={"self": {"cls": "torrentfile.hasher.Hasher", "fields": {}}, "paths": "list[str]", "piece_length": "int", "align": "bool",
+              "progress": "int", "progress_bar": "any"},
+      requires=["piece_length > 0", ("env", "path_is_file(paths, 0)")],
+      raises={"IndexError": {"when": "len(paths) == 0"}},
+      ensures=[
+          ("C01", "starts_at_the_beginning_of_the_first_file",
+           "self.index == 0 and file_open(self.current) and file_tail(self.current) == fs_data(self.paths[0])"),
+          ("C01", "keeps_its_arguments", "self.paths == paths and self.piece_length == piece_length and self.align == align"),
+      ],
+      creates={"piece_length": "int", "paths": "list[str]", "align": "bool", "total": "int", "index": "int", "current": "file",
+               "progress": "int"})
